@@ -231,6 +231,89 @@ def check_helpers(K, with_sid, with_pi, flags, ids, rec: Recorder, node, apps):
                  sample=lambda: dict(case, how=how, answer=out.hex()[:160]))
 
 
+WIRE_IDS = [(0, 0), (0, 7), (7, 0), (0xffffffff, 0xffffffff), (0x80000000, 1), (1, 0xffffffff)]
+WIRE_KINDS = [("CER", 0x80), ("DWR", 0x80), ("DWR", 0xc0), ("REQ", 0xc0), ("REQ", 0x80), ("REQ-unknown-app", 0xc0),
+              ("REQ-incomplete", 0x80), ("REQ-handler-raises", 0xc0), ("REQ-threading", 0xc0), ("DPR", 0x80)]
+
+
+def wire_case(kinds_ids, rec: Recorder):
+    """The answers a node and its applications actually transmit: a started node (simulated transport), a peer
+    that uses boundary identifiers from its first message on.  kinds_ids: [(kind, flags, hbh, e2e), ...]; a CER
+    comes first, a DPR (if any) last."""
+    from dv import world as W
+    case = {"wire": [list(x) for x in kinds_ids]}
+    w = W.NodeWorld({"peers": [{"name": "peer1.example", "ip": ["10.1.1.1"]}],
+                     "apps": [{"app_id": 4, "auth": True, "peers": [0], "handler": "answer"},
+                              {"app_id": 3, "acct": True, "auth": False, "peers": [0], "handler": "raise"},
+                              {"app_id": 16777238, "auth": True, "peers": [0], "handler": "answer", "kind": "threading"}],
+                     "node_timers": {"idle": 5000, "dwa": 50, "cer": 50, "cea": 50, "wakeup": 5}})
+    try:
+        w.start()
+        c = w.accept("10.1.1.1")
+        c.host = "peer1.example"
+        for (kind, flags, hbh, e2e) in kinds_ids:
+            n0 = len(c.refresh())
+            base = {"host": "peer1.example", "hbh": hbh, "e2e": e2e, "flags": flags}
+            if kind == "CER":
+                m = dict(base, k="CER", auth=[4, 16777238], acct=[3])
+                code, app = 257, 0
+            elif kind == "DWR":
+                m, code, app = dict(base, k="DWR"), 280, 0
+            elif kind == "DPR":
+                m, code, app = dict(base, k="DPR"), 282, 0
+            elif kind == "REQ":
+                m, code, app = dict(base, k="REQ"), 272, 4
+            elif kind == "REQ-unknown-app":
+                m, code, app = dict(base, k="REQ", app=999), 272, 999
+            elif kind == "REQ-incomplete":
+                m, code, app = dict(base, k="REQ", bare=True), 272, 4
+            elif kind == "REQ-handler-raises":
+                m, code, app = dict(base, k="REQ", code=271, app=3, bare=True), 271, 3
+            else:
+                m, code, app = dict(base, k="REQ", app=16777238), 272, 16777238
+            w.feed_msg(c, m)
+            w.advance(1)
+            new = [f for f in c.refresh()[n0:] if not f.is_request]
+            mine = [f for f in new if f.code == code]
+            what = f"{kind} flags={flags:#x} hbh={hbh:#x} e2e={e2e:#x}"
+            if len(mine) != 1:
+                rec.violation(f"C20/wire/answer-count/{kind}", case, f"{what}: answers on the wire {[f.brief() for f in new]}")
+                continue
+            f = mine[0]
+            got = (f.h["version"], f.h["code"], f.h["app_id"], f.h["hbh"], f.h["e2e"])
+            if got != (1, code, app, hbh, e2e):
+                rec.violation(f"C20/wire/header/{kind}", case, f"{what}: the answer on the wire bears (version, code, application, hop-by-hop, end-to-end) = {got}")
+            if f.h["flags"] & 0x90 or (f.h["flags"] & 0x40) != (flags & 0x40):
+                rec.violation(f"C20/wire/flags/{kind}", case, f"{what}: answer flags {f.h['flags']:#x}")
+            oh = f.avp(264)
+            oh = getattr(oh, "data", oh)
+            if oh is not None and oh != W.NODE_HOST.encode():
+                rec.violation(f"C20/wire/origin-host/{kind}", case, f"{what}: Origin-Host {oh!r}")
+            rec.case(fp("wire", kind, flags, hbh, e2e), ["wire", f"wire:{kind}", "wire:zero-hbh" if hbh == 0 else "wire:nonzero-hbh",
+                                                         "wire:zero-e2e" if e2e == 0 else "wire:nonzero-e2e"],
+                     sample=lambda: {"request": what, "answer": f.brief()})
+    finally:
+        w.close()
+
+
+def wire_part(rec: Recorder, shard, nshards, thorough):
+    jobs = []
+    body = [k for k in WIRE_KINDS if k[0] not in ("CER", "DPR")]
+    for (h0, e0) in WIRE_IDS:
+        for rot in range(len(body)):
+            seq = [("CER", 0x80, h0, e0)]
+            order = body[rot:] + body[:rot]
+            for j, (kind, flags) in enumerate(order if thorough else order[:4]):
+                h, e = WIRE_IDS[(j + rot) % len(WIRE_IDS)]
+                if (h, e) == (h0, e0) or j == 0:
+                    h, e = h0, e0                 # the same pair again: identifiers are unique among requests in flight only
+                seq.append((kind, flags, h, e))
+            seq.append(("DPR", 0x80, h0, e0))
+            jobs.append(seq)
+    for seq in jobs[shard::nshards]:
+        wire_case(seq, rec)
+
+
 def make_node_and_apps():
     import os
     from diameter.node import Node
@@ -286,6 +369,7 @@ def shard_main(shard, nshards, tier, scale):
     finally:
         os.close(node.interrupt_read)
         os.close(node.interrupt_write)
+    wire_part(rec, shard, nshards, tier == "thorough")
     return rec.dump()
 
 
@@ -294,7 +378,8 @@ def run(tier, scale=1.0):
     rec = Recorder(PID)
     for d in hyp.pool_run(shard_main, (tier, scale)):
         rec.merge(d)
-    required = {"kind:typed": 1, "kind:generic": 1, "req-class": 1, "non-req-class": 1,
+    required = {"wire:zero-hbh": 1, "wire:zero-e2e": 1, "wire:CER": 1, "wire:DPR": 1, "wire:REQ": 1, "wire:REQ-unknown-app": 1,
+                "wire:REQ-incomplete": 1, "wire:REQ-handler-raises": 1, "wire:REQ-threading": 1, "kind:typed": 1, "kind:generic": 1, "req-class": 1, "non-req-class": 1,
                 "helper:node": 1, "helper:app-auth": 1, "helper:sid=True": 1, "helper:pi=True": 1}
     return finish(rec, tier=tier, level="exploration", rule=RULE, assumptions=ASSUME, t0=t0,
                   exhaustive=True, required_classes=required,
@@ -307,8 +392,14 @@ def replay(doc):
     case = doc["case"]
     define_runtime_commands()
     classes = {k.__name__: k for k in [Message] + all_subclasses(Message)}
-    K = classes[case["class"]]
-    if "how" in case:
+    if "wire" in case:
+        wire_case([tuple(x) for x in case["wire"]], rec)
+        K = None
+    else:
+        K = classes[case["class"]]
+    if "wire" in case:
+        pass
+    elif "how" in case:
         node, apps = make_node_and_apps()
         check_helpers(K, case["session_id"], case["proxy_info"], case["flags"], tuple(case["ids"]), rec, node, apps)
     else:
